@@ -72,7 +72,7 @@ func (w *Worker) callValue(s *State, f *Frame, fv Value, args []Value, dst int, 
 		if !ok {
 			panic(unsupported{"native closure " + c.Native})
 		}
-		res := h(w, s, args)
+		res := h(w, s, append(append([]Value(nil), c.Bind...), args...))
 		if dst >= 0 {
 			f.env[dst] = res
 		}
@@ -370,6 +370,14 @@ func (w *Worker) builtin(s *State, f *Frame, b *ssa.Builtin, args []Value, c *ss
 	case "recover":
 		return IfaceV{}
 	case "close":
+		ch := args[0].(ChanV)
+		if ch.O == nil {
+			panic(crash{"close of nil channel"})
+		}
+		if ch.O.Closed {
+			panic(crash{"close of closed channel"})
+		}
+		ch.O.Closed = true
 		return nil
 	case "ssa:wrapnilchk":
 		p := args[0].(Ptr)
